@@ -1,4 +1,5 @@
 import BeyondVerif.Model.ManWin
+import BeyondVerif.Model.FrameReg
 /-!
 # C17 — kernel-checked counter-witnesses
 
@@ -37,5 +38,23 @@ theorem whole_step_burn_rk4 :
     stagesOn butcherC_rk4 600000000 720000000 600000000 60000000 = [true, true, true, true] ∧
     stagesOn butcherC_rk4 600000000 720000000 660000000 60000000 = [true, true, true, false] ∧
     stagesOn butcherC_rk4 600000000 720000000 720000000 60000000 = [false, false, false, false] := by decide
+
+/-! ### A frame name registered again under a farther parent (open finding C17-reregistered-under-other-parent) -/
+section reregistration
+open BeyondVerif.FrameReg
+
+/-- `orbit2frame("f", orbit 0, "QSW")` (parent EME2000), then `orbit2frame("f", orbit 1, "QSW", parent=TEME)` — three
+orientation links away from the EME2000 states that are converted: the conversion out of the frame (and its origin) use
+the latest registration, the conversion into it the axes of the first one -/
+theorem stale_axes_after_reregistration_under_farther_parent :
+    run [] [Op.reg "f" ⟨"QSW", 0, 0⟩, Op.reg "f" ⟨"QSW", 1, 3⟩, Op.conv "f"] = [some ⟨"QSW", 1, 3⟩] ∧
+    runInto [] [Op.reg "f" ⟨"QSW", 0, 0⟩, Op.reg "f" ⟨"QSW", 1, 3⟩, Op.conv "f"] = [some ⟨"QSW", 0, 0⟩] := by decide
+
+/-- registered again under the same parent, or under a nearer one, the latest registration is used both ways -/
+theorem reregistration_under_same_or_nearer_parent_is_fine :
+    runInto [] [Op.reg "f" ⟨"QSW", 0, 0⟩, Op.reg "f" ⟨"TNW", 1, 0⟩, Op.conv "f"] = [some ⟨"TNW", 1, 0⟩] ∧
+    runInto [] [Op.reg "f" ⟨"QSW", 0, 3⟩, Op.reg "f" ⟨"TNW", 1, 1⟩, Op.conv "f"] = [some ⟨"TNW", 1, 1⟩] := by decide
+
+end reregistration
 
 end BeyondVerif.C17W
